@@ -1,12 +1,16 @@
-"""C05 — field parsers accept exactly their documented format (primitive validators and kernels, Kani)."""
+"""C05 — field parsers accept exactly their documented format (primitive validators and kernels with Kani; single-line field
+types against the format in their doc comment, executed from source)."""
 import e1
+import e2misc
 
 
 def run(tier, seed, ev, jobs):
-    ev.outside.append("field types whose parser is not covered by a harness listed in this evidence file; contents longer than the "
-                      "stated sizes with independent symbolic bytes")
-    return e1.run_e1("C05", tier, seed, ev, jobs)
+    rc = e2misc.run_fmt("C05", ev, "format")
+    ev.outside.append("field types whose parser is not covered by a harness or a format query listed in this evidence file; contents "
+                      "longer than the stated sizes with independent symbolic bytes")
+    return e1.combine(rc, e1.run_e1("C05", tier, seed, ev, jobs))
 
 
 def replay(path):
-    return e1.replay_file(path)
+    r = e2misc.replay_file(path)
+    return r if r is not None else e1.replay_file(path)
